@@ -38,6 +38,9 @@ func items() []item {
 		{"put-batch", []*regattapb.Command{PutBatch("b", "1", "c", "2")}},
 		{"sequence@L", []*regattapb.Command{WithLeader(Seq(Put("a", "3", false), Put("ab", "1", false)), 40)}},
 		{"two-entries-one-call", []*regattapb.Command{Put("p", "1", false), WithLeader(Put("q", "1", false), 41)}},
+		// apply calls that write no user data: only the bookkeeping moves
+		{"dummy@L", []*regattapb.Command{WithLeader(Dummy(), 42)}},
+		{"txn-failing-with-empty-branch", []*regattapb.Command{Txn(Cmps(Exists("never", nil)), Ops(OpPut("n", "1", false)), nil)}},
 	}
 }
 
@@ -398,6 +401,14 @@ func RunHistory(r *evid.Run, its []item, steps []int, repeated bool) {
 	runHistory(r, its, steps, repeated, "")
 }
 
+// InstallHistories are histories containing snapshot installs, for C08's crash part.
+func InstallHistories() [][]int {
+	n := len(items())
+	s, c := n+ctlSnapS, n+ctlSnapC
+	sy, re := n+ctlSync, n+ctlReopen
+	return [][]int{{s}, {c}, {0, s}, {0, c}, {s, 0}, {c, 5}, {7, sy, s}, {7, re, c}}
+}
+
 // RunHistoryExt lets other checks (C08) enumerate the crash points of a history.
 func RunHistoryExt(r *evid.Run, steps []int, prefix string) {
 	runHistory(r, items(), steps, false, prefix)
@@ -499,7 +510,7 @@ func Run(r *evid.Run) {
 	if r.Thorough() {
 		depth = 3
 	}
-	r.Rule(fmt.Sprintf("histories = every sequence of length 0..%d over %d steps (8 apply calls: put, overwrite, delete, range delete, two-put transaction, put batch, sequence with leader index, two entries in one call; 4 controls: Sync, clean close+reopen, snapshot install from a donor one entry ahead in both formats), starting from a never-opened table on a strict in-memory FS with only the base directory durable. For EVERY mutating FS operation boundary k (create/write/sync/rename/remove/link/mkdir/dir-sync, first open and final close included) the history is re-run with syncs ineffective from k on, unsynced state dropped, the table reopened and checked (index = stored index, content = model prefix at that index, not inside an apply call, >= last completed sync/close/install, leader index), the rest of the log re-applied and compared with the no-crash run. Thorough adds a second crash at every operation of the recovery+re-apply phase for histories of length <= 2. Non-trivial: every case (each is a distinct (history, crash point)); distinct = distinct (history, crash point, recovered index) triples", depth, na))
+	r.Rule(fmt.Sprintf("histories = every sequence of length 0..%d over %d steps (10 apply calls: put, overwrite, delete, range delete, two-put transaction, put batch, sequence with leader index, two entries in one call, and two that write no user data - a no-op with leader index and a transaction that fails into an empty branch; 4 controls: Sync, clean close+reopen, snapshot install from a donor one entry ahead in both formats), starting from a never-opened table on a strict in-memory FS with only the base directory durable. For EVERY mutating FS operation boundary k (create/write/sync/rename/remove/link/mkdir/dir-sync, first open and final close included) the history is re-run with syncs ineffective from k on, unsynced state dropped, the table reopened and checked (index = stored index, content = model prefix at that index, not inside an apply call, >= last completed sync/close/install, leader index), the rest of the log re-applied and compared with the no-crash run. Thorough adds a second crash at every operation of the recovery+re-apply phase for histories of length <= 2. Non-trivial: every case (each is a distinct (history, crash point)); distinct = distinct (history, crash point, recovered index) triples", depth, na))
 	total := par.SeqCount(na, depth)
 	done := par.For(total, r.Expired, func(i int64) {
 		steps := par.SeqAt(na, depth, i)
